@@ -58,7 +58,7 @@ Qed.
 (* a chain with three funded traders and no pool; creation fee 1000 of denom 5 *)
 Definition g0 : gstate PM :=
   mkG PM (@mkState (GP PM) [] (fun a d => match a with Trader _ => if d <? 100 then 1000000000 else 0 | _ => 0 end)
-                   (fun a b => 1500000000000000) (fun _ => false))
+                   (fun a b => 1500000000000000) (fun _ => false) (fun _ => None))
       (fun d => if d <? 100 then 3000000000 else 0) 1 (fun _ _ => 0) [(5, 1000)] (fun _ => false).
 
 Definition history : list gmsg :=
